@@ -84,6 +84,7 @@ structure Req where
   addr : Nat
   len : Nat
   data : Nat
+  nb : Nat      -- bytes of the data field of the request's message class (`data_nbits >> 3`)
 deriving DecidableEq, Repr, Inhabited
 
 /-- `MemRespMsg` -/
@@ -95,12 +96,14 @@ structure Resp where
   data : Nat
 deriving DecidableEq, Repr, Inhabited
 
-/-- `len_ = int(req.len); if len_ == 0: len_ = data_nbits >> 3`  (`nb` = bytes of the data field) -/
+/-- `len_ = int(req.len); if len_ == 0: len_ = req_classes[i].data_nbits >> 3`. `nb` is the byte width of the
+data field of the message class of the port being serviced; the model reads it from the request (`Req.nb`): the
+requests of port `i` are messages of `req_classes[i]` (the memories' ports may carry different message types). -/
 def nbytes (nb len : Nat) : Nat := if len = 0 then nb else len
 
 /-- body of `up_mem` for one dequeued request: the response and the new store -/
-def service (nb : Nat) (r : Req) (m : Store) : Resp × Store :=
-  let k := nbytes nb r.len
+def service (r : Req) (m : Store) : Resp × Store :=
+  let k := nbytes r.nb r.len
   match r.kind with
   | .read =>      -- resp(type, opaque, 0, req.len, zext(mem.read(addr, len_)))
     (⟨Kind.read.code, r.opq, 0, r.len, readLE m r.addr k⟩, m)
@@ -111,19 +114,19 @@ def service (nb : Nat) (r : Req) (m : Store) : Resp × Store :=
     (⟨op.code, r.opq, 0, r.len, old⟩, writeLE m r.addr k (amoFun (8 * k) op old r.data))
 
 /-- the sequential specification: one memory, requests applied one after another -/
-def seqSpec (nb : Nat) : List Req → Store → List Resp × Store
+def seqSpec : List Req → Store → List Resp × Store
   | [], m => ([], m)
   | r :: rs, m =>
-    let x := service nb r m
-    let y := seqSpec nb rs x.2
+    let x := service r m
+    let y := seqSpec rs x.2
     (x.1 :: y.1, y.2)
 
 /-- the same over a port-tagged log (what the system models record) -/
-def runLog (nb : Nat) : List (Nat × Req) → Store → List (Nat × Resp) × Store
+def runLog : List (Nat × Req) → Store → List (Nat × Resp) × Store
   | [], m => ([], m)
   | (i, r) :: rs, m =>
-    let x := service nb r m
-    let y := runLog nb rs x.2
+    let x := service r m
+    let y := runLog rs x.2
     ((i, x.1) :: y.1, y.2)
 
 /-- requests of port `i` in a log, in log order -/
@@ -147,17 +150,17 @@ def WEvent.covers (e : WEvent) (b : Nat) : Bool := decide (e.addr ≤ b) && deci
 def WEvent.byte (e : WEvent) (b : Nat) : Nat := (e.val / 256 ^ (b - e.addr)) % 256
 
 /-- what `service` stores (a read stores nothing) -/
-def effect (nb : Nat) (r : Req) (m : Store) : Option WEvent :=
-  let k := nbytes nb r.len
+def effect (r : Req) (m : Store) : Option WEvent :=
+  let k := nbytes r.nb r.len
   match r.kind with
   | .read => none
   | .write => some ⟨r.addr, k, r.data % 2 ^ (8 * k)⟩
   | .amo op => some ⟨r.addr, k, amoFun (8 * k) op (readLE m r.addr k) r.data⟩
 
 /-- store events of a run, oldest first -/
-def effects (nb : Nat) : List Req → Store → List WEvent
+def effects : List Req → Store → List WEvent
   | [], _ => []
-  | r :: rs, m => (effect nb r m).toList ++ effects nb rs (service nb r m).2
+  | r :: rs, m => (effect r m).toList ++ effects rs (service r m).2
 
 /-- the byte the *latest* event covering address `b` put there (none: no event covers `b`) -/
 def latest : List WEvent → Nat → Option Nat
@@ -323,7 +326,7 @@ def srcSend (e : Env) (p : Port) : Port :=
 def portPre (e : Env) (p : Port) : Port := srcSend e (reqTick (respTick e p))
 
 /-- iteration `i` of the loop in `up_mem` -/
-def memPort (nb : Nat) (env : Nat → Env) (i : Nat) (s : Sys) : Sys :=
+def memPort (env : Nat → Env) (i : Nat) (s : Sys) : Sys :=
   let p := s.ports i
   match DeqPipe.deq p.reqQ with
   | none => s                                        -- `req_qs[i].deq.rdy()` is False
@@ -331,13 +334,13 @@ def memPort (nb : Nat) (env : Nat → Env) (i : Nat) (s : Sys) : Sys :=
     match p.respQ with
     | [] =>                                          -- response delay 0: `enq` is the sink's `recv`
       if (env i).sinkRdy then
-        let x := service nb r s.store
+        let x := service r s.store
         { ports := updPort s.ports i { p with reqQ := reqQ', delivered := p.delivered ++ [x.1] },
           store := x.2, log := s.log ++ [(i, r)], rlog := s.rlog ++ [(i, x.1)] }
       else s
     | _ =>
       if SendPipe.enqRdy p.respQ then
-        let x := service nb r s.store
+        let x := service r s.store
         { ports := updPort s.ports i { p with reqQ := reqQ', respQ := SendPipe.enq p.respQ x.1 },
           store := x.2, log := s.log ++ [(i, r)], rlog := s.rlog ++ [(i, x.1)] }
       else s
@@ -346,8 +349,8 @@ def prePort (env : Nat → Env) (i : Nat) (s : Sys) : Sys :=
   { s with ports := updPort s.ports i (portPre (env i) (s.ports i)) }
 
 /-- one cycle -/
-def cycle (n nb : Nat) (env : Nat → Env) (s : Sys) : Sys :=
-  forPorts (memPort nb env) n (forPorts (prePort env) n s)
+def cycle (n : Nat) (env : Nat → Env) (s : Sys) : Sys :=
+  forPorts (memPort env) n (forPorts (prePort env) n s)
 
 /-- `MagicMemoryCL(nports, .., latency)` connected to sources holding `reqs i`, store image `m0` -/
 def init (latency : Nat) (reqs : Nat → List Req) (m0 : Store) : Sys :=
@@ -356,8 +359,8 @@ def init (latency : Nat) (reqs : Nat → List Req) (m0 : Store) : Sys :=
     store := m0, log := [], rlog := [] }
 
 /-- `T` cycles under the environment `env : cycle → port → Env` -/
-def run (n nb : Nat) (env : Nat → Nat → Env) (T : Nat) (s : Sys) : Sys :=
-  (List.range T).foldl (fun s t => cycle n nb (env t) s) s
+def run (n : Nat) (env : Nat → Nat → Env) (T : Nat) (s : Sys) : Sys :=
+  (List.range T).foldl (fun s t => cycle n (env t) s) s
 
 end CL
 
@@ -398,13 +401,13 @@ def idle (e : Env) (p : Port) : Port :=
   deliver p y.1 y.2 p.pending
 
 /-- iteration `i` of `up_mem` followed by the clock edge of port `i` -/
-def portCycle (nb : Nat) (env : Nat → Env) (i : Nat) (s : Sys) : Sys :=
+def portCycle (env : Nat → Env) (i : Nat) (s : Sys) : Sys :=
   let p := s.ports i
   let e := env i
   match p.pending with
   | r :: rest =>
     if e.srcVal && !e.stall && p.pipe.recvRdy then      -- `send.val & send.rdy` of the stall stage
-      let x := service nb r s.store
+      let x := service r s.store
       let y := p.pipe.edge true x.1 e.sinkRdy
       { ports := updPort s.ports i (deliver p y.1 y.2 rest),
         store := x.2, log := s.log ++ [(i, r)], rlog := s.rlog ++ [(i, x.1)] }
@@ -413,13 +416,13 @@ def portCycle (nb : Nat) (env : Nat → Env) (i : Nat) (s : Sys) : Sys :=
   | [] =>                                                -- the source has nothing left: `val` is 0
     { s with ports := updPort s.ports i (idle e p) }
 
-def cycle (n nb : Nat) (env : Nat → Env) (s : Sys) : Sys := forPorts (portCycle nb env) n s
+def cycle (n : Nat) (env : Nat → Env) (s : Sys) : Sys := forPorts (portCycle env) n s
 
 def init (extraLatency : Nat) (reqs : Nat → List Req) (m0 : Store) : Sys :=
   { ports := fun i => ⟨reqs i, IPipe.init (extraLatency + 1), []⟩, store := m0, log := [], rlog := [] }
 
-def run (n nb : Nat) (env : Nat → Nat → Env) (T : Nat) (s : Sys) : Sys :=
-  (List.range T).foldl (fun s t => cycle n nb (env t) s) s
+def run (n : Nat) (env : Nat → Nat → Env) (T : Nat) (s : Sys) : Sys :=
+  (List.range T).foldl (fun s t => cycle n (env t) s) s
 
 end RTL
 
